@@ -813,6 +813,40 @@ theorem build_valid_lexical_checked (p : BuildAlg.Prog) (hwf : p.WFb = true)
       (Bridge.toProg p b.argsOf).main [] = true :=
   build_valid_of_lexical p (wf_of_wfb p hwf) (lexical_of_check p (wf_of_wfb p hwf) hx) b tr h
 
+/-- **args_stay_local** (the property's sentence "values that depend on a subgraph's own arguments never
+    appear outside that subgraph", at full strength for main-clean — in particular lexical — programs):
+    in a successful build every emitted vertex that depends freely on an argument of body `s` sits in a
+    graph enclosed by `s` in the final scope tree (`s` itself or a body nested in it). -/
+theorem args_stay_local (p : Prog) (hwf : WF p) (b : Built) (tr : List Ev)
+    (h : build p = .ok (b, tr)) (M : MainClean p b) (s a : Nat) (ha : a ∈ lookupL b.argsOf s)
+    (v : V) (g : Nat) (hp : (v, g) ∈ placed tr [])
+    (hdep : Reach (Bridge.adjCut p s) v (.node a)) :
+    Anc (parent b.owner b.scopeOf) s g := by
+  obtain ⟨st, hdi, _, htopo, hown, hso, TF⟩ := discover_final p hwf b tr h
+  obtain ⟨_, _, _, _, hbtopo, _⟩ := build_inv p hwf b tr h
+  have hinv := scope_fold p hwf st.owner st.topo.reverse TF (lcaFuel st.topo.reverse)
+    (by simp only [lcaFuel]; omega) st.topo.reverse [] [] (by simp) (sinv_empty p st.owner)
+  rw [← hso, ← hown, ← htopo] at hinv
+  rw [← hown, ← htopo] at TF
+  have hs := placed_in_scope p b tr h v g hp
+  apply (hinv.low v g hs).2 s
+  rintro G ⟨hG, hGv⟩
+  obtain ⟨pre, suf, hsplit⟩ := List.append_of_mem hG
+  exact Bridge.freeDep_enclosed p hwf b st hdi htopo hown TF hinv hbtopo s a
+    (fun hs0 => M.clean s a hs0 ha) pre.length pre G suf rfl hsplit v
+    ((mem_visit_iff (rankV p) (rank_adjIn p hwf) p.fuel (.src G) v (rank_src_lt_fuel p hwf G)).mp hGv)
+    hdep
+
+/-- … for lexical programs, with the requested argument list in the place of `arguments_of` -/
+theorem args_stay_local_of_lexical (p : Prog) (hwf : WF p) (X : Lexical p) (b : Built)
+    (tr : List Ev) (h : build p = .ok (b, tr)) (s : Nat) (pg : PGraph) (l : List Nat)
+    (hs : s ∈ b.graphTopo) (hpg : p.graphs[s]? = some pg) (hl : pg.args = some l) (a : Nat)
+    (ha : a ∈ l) (v : V) (g : Nat) (hp : (v, g) ∈ placed tr [])
+    (hdep : Reach (Bridge.adjCut p s) v (.node a)) :
+    Anc (parent b.owner b.scopeOf) s g :=
+  args_stay_local p hwf b tr h (mainClean_of_lexical p hwf b tr h X) s a
+    (by rw [(arguments_of_requested p b tr h).1 s pg l hs hpg hl]; exact ha) v g hp hdep
+
 /-! ### the Builder does not look at what kind of operator a node is
 
 `BuildAlg.Prog` has no field for the operator type, domain, version, attributes or number of outputs
@@ -949,6 +983,14 @@ def exSiblingLeak : Prog :=
 
 example : ∃ b tr, build exSiblingLeak = .ok (b, tr) ∧ structOk exSiblingLeak tr [] = false := by
   refine ⟨_, _, rfl, ?_⟩; decide
+
+/-- the hypotheses of `args_stay_local` are jointly satisfiable: `Neg(carried)` of `exLoop` depends freely
+    on the body's argument 4 and is placed in the body -/
+example : ∃ b tr, build exLoop = .ok (b, tr) ∧ Anc (parent b.owner b.scopeOf) 1 1 := by
+  refine ⟨_, _, rfl, ?_⟩
+  exact args_stay_local exLoop (wf_of_wfb _ (by decide)) _ _ rfl
+    (mainClean_of_check _ (wf_of_wfb _ (by decide)) _ (by decide)) 1 4 (by decide) (.node 5) 1
+    (by decide) (Reach.step (Reach.refl _) (by decide))
 
 /-- `Lexical` is satisfiable and discriminates (a check on the program alone) -/
 example : Bridge.lexicalB exLoop = true ∧ Bridge.lexicalB exNested = true ∧
